@@ -28,7 +28,28 @@ func genC18(seed int64, n int) *c18Prog {
 	newName := func(prefix string) string {
 		return fmt.Sprintf("%s%d", prefix, len(p.globals))
 	}
-	if rng.Intn(3) == 0 {
+	if seed%5 == 0 {
+		// directed prefix (every fifth sequence): a global, then a top-level block whose header redeclares its name,
+		// then a top-level use of the global — the forms that random choice reaches only rarely
+		g := newName("g")
+		p.stmts = append(p.stmts, "tot := 0", fmt.Sprintf("%s := in0 + 1", g))
+		p.globals = append(p.globals, "tot", g)
+		ints = append(ints, g)
+		hasTot = true
+		switch (seed / 5) % 3 {
+		case 0:
+			p.stmts = append(p.stmts, fmt.Sprintf("for %s := 0; %s < 3; %s++ {\n\ttot += %s\n}", g, g, g, g))
+		case 1:
+			p.stmts = append(p.stmts, fmt.Sprintf("if %s := in1 + 1; %s > 2 {\n\ttot += %s\n}", g, g, g))
+		default:
+			p.stmts = append(p.stmts, fmt.Sprintf("for %s, e := range []int{in1, 7} {\n\ttot += %s * e\n}", g, g))
+		}
+		p.stmts = append(p.stmts, fmt.Sprintf("tot += %s", g))
+		if n < 4 {
+			n = 4
+		}
+	}
+	if seed%5 != 0 && rng.Intn(3) == 0 {
 		// a package clause opens the program (valid in a whole program and in the first chunk)
 		p.stmts = append(p.stmts, "package main", `import "fmt"`)
 		hasFmt = true
